@@ -108,6 +108,31 @@ class Drive402:
             self._enter(st)
 
 
+class LaggedDrive402(Drive402):
+    """A conformant drive that needs `latency` seconds (on the clock `now()`) to perform a commanded
+    transition: until then status reads show the old state.  Automatic transitions follow `sched` as before."""
+    def __init__(self, state, sched, extra, now, latency):
+        super().__init__(state, sched, extra)
+        self.now, self.latency, self.pending = now, latency, None
+
+    def _settle(self):
+        if self.pending is not None and self.now() >= self.pending[0]:
+            path, self.pending = self.pending[1], None
+            for st in path:
+                self._enter(st)
+
+    def read_status(self):
+        self._settle()
+        return super().read_status()
+
+    def write_controlword(self, cw):
+        self._settle()
+        self.cws.append(cw)
+        path = command_path(self.state, cw, self.last7)
+        self.last7 = bool(cw & 0x80)
+        self.pending = (self.now() + self.latency, path) if path else None
+
+
 # ---- operation modes: object 0x6060 codes and the bit of each mode in 0x6502 (CiA 402) ----
 MODES = {"NO MODE": (0, None), "PROFILED POSITION": (1, 0), "VELOCITY": (2, 1), "PROFILED VELOCITY": (3, 2),
          "PROFILED TORQUE": (4, 3), "HOMING": (6, 5), "INTERPOLATED POSITION": (7, 6),
